@@ -5,6 +5,7 @@ import ast
 import re
 
 from sa import linform as L, match as M, norm, pc as PC, prog, regexlang as R, rulekit as K
+from sa.cfg import EXPLICIT, cfg_of
 from sa.consteval import Folder, NotConst
 from sa.loader import AnalysisError
 
@@ -27,6 +28,76 @@ def emitted(fn, writer_call: str):
     return loop[0], per, closing
 
 
+def _leftmost(e):
+    while isinstance(e, ast.BinOp) and isinstance(e.op, ast.Add):
+        e = e.left
+    return e
+
+
+def _start_ok(e, prev: str, sub_len: tuple[str, ...]):
+    """True/False/None(unrecognised): start offset `max(0, len(prev) - len(sub) [+- k])` with slack <= 1."""
+    if e is None:
+        return True
+    b = M.match(M.compile_pat("max(0, $X)"), e)
+    if b is not None:
+        e = b["X"]
+    if isinstance(e, ast.Constant) and e.value == 0:
+        return True
+    k = 0
+    if isinstance(e, ast.BinOp) and isinstance(e.op, (ast.Add, ast.Sub)) and isinstance(e.right, ast.Constant) and isinstance(e.right.value, int):
+        k = e.right.value if isinstance(e.op, ast.Add) else -e.right.value
+        e = e.left
+    if isinstance(e, ast.BinOp) and isinstance(e.op, ast.Sub) and norm.raw(e.left) == f"len({prev})" and norm.raw(e.right) in sub_len:
+        return k <= 1
+    return None
+
+
+def scan(chk, repo):
+    """BodyPartReader._read_chunk_from_stream: on every path the first search for the part delimiter looks at a haystack that
+    begins in the previous chunk, no later than len(delimiter)-1 bytes before its end: a delimiter that straddles the read
+    boundary is then found before any later one (necessary for `the part ends at the first delimiter`)."""
+    fn = repo.func(MP, "BodyPartReader._read_chunk_from_stream")
+    g = cfg_of(fn.node)
+    finds = []
+    for n in g.nodes:
+        if n.in_finally_copy is not None:
+            continue
+        for c in K.node_calls(n):
+            if isinstance(c.func, ast.Attribute) and c.func.attr in ("find", "index", "rfind") and c.args and norm.text(c.args[0], c).replace('"', "'") in ("b'\\r\\n' + self._boundary",):
+                finds.append((n, c))
+    if not finds:
+        raise AnalysisError("C19.scan: no search for CRLF + boundary in BodyPartReader._read_chunk_from_stream")
+    fnodes = {n.id for n, _c in finds}
+    n_first = 0
+    for n, c in finds:
+        others = fnodes - {n.id}
+        if g.find_path([g.entry], lambda x, n=n: x is n, lambda x: x.id in others, EXPLICIT) is None:
+            continue  # never the first search on a path
+        n_first += 1
+        hay = norm.subst(c.func.value, c)
+        lm = _leftmost(hay)
+        start = c.args[1] if len(c.args) > 1 else None
+        prev = "self._prev_chunk"
+        sub_len = ("len(sub)", "len(b'\\r\\n' + self._boundary)", "self._boundary_len", "len(self._boundary) + 2")
+        if isinstance(lm, ast.Subscript) and isinstance(lm.slice, ast.Slice) and lm.slice.upper is None and norm.raw(lm.value) == prev:
+            ok = _start_ok(norm.subst(lm.slice.lower, c) if lm.slice.lower is not None else None, prev, sub_len) if start is None else None
+        elif norm.raw(lm) == prev and lm is not hay:
+            ok = _start_ok(norm.subst(start, c) if start is not None else None, prev, sub_len)
+        else:
+            ok = False
+        covers_new = any(isinstance(x, ast.Name) and x.id == "chunk" for x in ast.walk(hay))
+        if c.func.attr != "find":
+            ok = False
+        if ok and covers_new:
+            chk.ok("C19.scan", c, f"first delimiter search on its path: haystack `{K.short(hay, 40)}` starts in the previous chunk" + (f" at `{norm.raw(start)}`" if start is not None else ""))
+        elif ok is None:
+            chk.analysis_error(f"C19.scan: start offset of `{K.short(c, 80)}` has an unrecognised shape (line {c.lineno})")
+        else:
+            chk.violation("C19.scan", c, K.short(c, 80), "search over self._prev_chunk + chunk from <= len(prev) - len(delimiter) + 1",
+                          "on some path the first search for the part delimiter does not cover the seam between the previous and the new chunk: a delimiter straddling the read boundary is missed (or found after a later one), so the next part's headers and body are returned as content of this part")
+    chk.expect_count("C19.scan", n_first, 2, "delimiter searches that come first on a path")
+
+
 def run(chk):
     repo = chk.repo
     folder = Folder(repo)
@@ -38,7 +109,7 @@ def run(chk):
         "inside the reading loops; the part Content-Length is lexically gated; boundary character classes equal token / qdtext; part headers pass the "
         "CTL sanitiser."
     )
-    chk.not_decided = "boundary detection across chunk edges, base64 quartet alignment, round-trip equality of contents."
+    chk.not_decided = "boundary detection across chunk edges beyond the necessary condition C19.scan (first search on every path starts in the previous chunk), base64 quartet alignment, round-trip equality of contents."
     w = repo.cls(MP, "MultipartWriter")
     size = w.methods["size"]
     write = w.methods["write"]
@@ -174,6 +245,8 @@ def run(chk):
             chk.ok("C19.boundary", f, f"{q}: boundaries longer than 70 are refused")
         else:
             chk.violation("C19.boundary", f, "if len(boundary) > 70: raise ValueError", "", f"{q}: over-long boundaries are accepted")
+    # ---- scan: the delimiter search covers the seam between the previous and the new chunk ----------------------
+    scan(chk, repo)
     # ---- headers (shared with C04) ------------------------------------------------------------------------------------------------
     from rules import C04
 
